@@ -24,7 +24,7 @@ CLAIMED['C04'] = (
 CLAIMED['C05'] = (
     'symbolic execution of the matrix/counter/diffusivity/occupancy code on symbolic event tables and state arrays; z3 per-path obligations',
     'Event/jump tables with symbolic site ids and state arrays with symbolic states; every matrix cell, counter entry, the diffusivity formula '
-    '(linear in the symbolic counts over concrete pool geometry) and the occupancies are proved against counting oracles for all values in the bound. '
+    '(linear in the symbolic counts over concrete pool geometry), the occupancies, the counting part of Jumps.rates and the edge set of Jumps.to_graph (arbitrary positive attempt frequency) are proved against counting oracles for all values in the bound. '
     'One listed known finding (NOSITE rows alias the last site in Transitions.matrix) is reported as KNOWN-FINDING; violations outside that class still fail.',
     'Trusts the symgem intercepts for np.unique(axis=0)/symbolic fancy assignment (validated by concrete replay of path models), pymatgen '
     'get_all_distances on concrete sites (cross-checked against brute force), z3. k rows, n sites, T, A bounded.',
@@ -88,14 +88,14 @@ CLAIMED['C14'] = (
 NOT_APPLICABLE.pop('C14', None)
 CLAIMED['C08'] = (
     'symbolic execution of trajectory_to_volume on real-valued sample coordinates (z3) and of the voxel<->fractional mapping on binary64/int64 terms (QF_BVFP, cvc5)',
-    'REAL: for all sample coordinates in [0,1) every voxel count equals the number of samples whose floor(x*n) is that voxel, the sum equals frames x atoms, edge bounds hold for the listed resolutions. '
+    'REAL: for all sample coordinates in [0,1) every voxel count equals the number of samples whose floor(x*n) is that voxel, the sum equals frames x atoms, edge bounds hold for the listed resolutions and for every symbolic resolution in (L/8, L]. '
     'FP: the round trip voxel -> fractional centre -> voxel is the identity for every grid size n and index v in the bound (cvc5 unsat over all int64/float64 values in range).',
     'np.linspace edges read as exact k/n; positions in [0,1) (C01); numpy float64/int64 conversion semantics as modelled in symgem.fp; z3 and cvc5 1.4.',
     'DESIGN.md §3 C08')
 NOT_APPLICABLE.pop('C08', None)
 CLAIMED['C09'] = (
     'symbolic execution of Volume.probability/get_free_energy and the node selection of free_energy_graph; LOG/EXP as uninterpreted functions with instantiated axioms; z3',
-    'For all voxel counts and temperatures in the bound: probabilities are count/total (numerator/denominator of the code\'s quotient), visited voxels carry -k_B T LOG(p) >= 0, '
+    'For all non-negative real voxel densities (also totals below one) and temperatures in the bound: probabilities are count/total (numerator/denominator of the code\'s quotient), visited voxels carry -k_B T LOG(p) >= 0, '
     'denser never higher, probabilities sum to one, unvisited voxels carry the largest finite double (>= 1e7, inside the finite range) and are excluded from the graph built with the path threshold.',
     'LOG/EXP axioms (ln x <= x-1, EXP(LOG x)=x, monotone, bounded below on [1e-12,1]) instead of libm; finiteness as a range check in real arithmetic; '
     'two-step composition (facts about the grid, then graph builder on arbitrary grids with these facts); z3.',
